@@ -213,6 +213,8 @@ def run(rep, tier, build, replay=None):
     unis = []
     for i in range(n):
         res = gendoc.gen_universe(rng, size=rng.choice([2, 3, 4, 6]))
+        if i == 0:
+            res = gendoc.corpus_ext(new_form=False)        # corpus: witness of known finding F3, always first
         uni = expect.Universe(res)
         scopes = scopes_for(uni)
         cfgs = [{'lexicon': ' '.join(sc), 'expand': ''} for _, sc in scopes] + [{}]
